@@ -279,6 +279,10 @@ def run_harness(prop, tier, seed, outdir, log, extra=(), race=False):
     binary = "harness-race" if race else "harness"
     cmd = [os.path.join(WORK, "bin", binary), prop, "-tier", tier, "-seed", str(seed), "-out", outdir] + list(extra)
     env = dict(GOENV, GORACE="halt_on_error=0 exitcode=0") if race else GOENV
+    if not race:
+        # a memory cap (address space) so that a runaway allocation fails fast instead of exhausting the machine;
+        # the race-detector build needs its shadow address space and runs uncapped
+        cmd = ["prlimit", "--as=%d" % (24 << 30), "--"] + cmd
     rc, out = sh(cmd, cwd=os.path.join(ROOT, "harness"), env=env, timeout=7200)
     log.write("== harness %s rc=%d (%.1fs)\n%s\n" % (" ".join(cmd[1:]), rc, time.time() - t0, out[-40000:]))
     sp = os.path.join(outdir, "summary.json")
